@@ -130,6 +130,7 @@ func cmdVerify(args []string) int {
 	for _, m := range fileMacros {
 		eng.macros[m.Name] = m
 	}
+	eng.installStreamDefs()
 	var keys []string
 	for k, fi := range w.Funcs {
 		if fi.Contract == nil || fi.Contract.Trusted {
